@@ -40,7 +40,7 @@ MANIFEST = dict(
          "model, plus token soup through scanner, reader, evaluator, sliced evaluator and highlighter.",
     design="DESIGN.md section 5 C06 and section 10",
     note="PARTIAL at the proof level (see text). Listed findings, each by call site: ratio32-overflow-panic, cyclic-data, "
-         "make-vector-huge, expt-astronomic. A hang is observed as a timeout (implementation) / exhausted fuel (model). "
+         "make-vector-huge, make-string-huge, expt-astronomic. A hang is observed as a timeout (implementation) / exhausted fuel (model). "
          "Trusted: Coq kernel, models tied by sampling, harness catch_unwind + timeouts, generator. Axioms: the four "
          "standard-library Reals axioms via Flocq where a statement mentions numbers.",
     technique="Rocq/Coq proof (reader totality for all texts, generated builtin-coverage obligation) + builtin-call correspondence check")
@@ -107,6 +107,7 @@ def corpus():
     out.append(sess(["(display %s)" % CYCLIC[0], PROBE]))
     out.append(sess(["(make-vector 9223372036854775808 0)", PROBE]))
     out.append(sess(["(expt 2 2147483647)", PROBE]))
+    out.append(sess(["(make-string 9223372036854775807)", PROBE]))
     # the reader panic repaired by fix e424813
     for t in ["#d1/-2147483648", "#d-2147483648/-1", "#x-80000000/-1", "(string->number \"1/-2147483648\")"]:
         out.append(sess([t, PROBE]))
@@ -241,6 +242,8 @@ def classify_call(f):
         return None
     if head == "make-vector" and rest.rstrip(")").split(" ")[0] in HUGE:
         return "make-vector-huge"
+    if head == "make-string" and rest.rstrip(")").split(" ")[0] in HUGE:
+        return "make-string-huge"
     if head in ("expt", "pow"):
         a = rest.rstrip(")").split(" ")
         if len(a) == 2 and a[1] in ("2147483647", "2147483648") and re.match(r"^-?\d+$", a[0]) and a[0] not in ("0", "1", "-1"):
